@@ -485,6 +485,15 @@ impl Node {
     pub fn has_f1(&self) -> bool {
         self.any(&|n| matches!(n, Repeat(c, _, None, _) if c.nullable()))
     }
+    /// syntactic "hard" test: the node contains a construct only the VM can run
+    pub fn syntactically_hard(&self) -> bool {
+        self.any(&|n| matches!(n, Look(..) | Backref(_) | Atomic(_) | KeepOut | ContG | CondGroup(..) | CondExpr(..) | GroupExists(_) | Assert(A::WordB | A::NotWordB | A::WordStart | A::WordEnd | A::EndBeforeNl) | Repeat(_, _, _, Mode::Poss)))
+    }
+    /// every unbounded repeat with a nullable body has a syntactically hard body, i.e. all F1
+    /// loops of the pattern are certainly interpreted by the VM (none can sit inside a delegate)
+    pub fn f1_loops_all_hard(&self) -> bool {
+        !self.any(&|n| matches!(n, Repeat(c, _, None, _) if c.nullable() && !c.syntactically_hard()))
+    }
     pub fn has_cond(&self) -> bool {
         self.any(&|n| matches!(n, CondGroup(..) | CondExpr(..) | GroupExists(_)))
     }
